@@ -1,4 +1,5 @@
 import HeartwoodModel.Model.Fetch
+import HeartwoodModel.Model.FetchWorker
 import HeartwoodModel.Driver.Util
 /-! Driver entry for C01 (and, through `Driver/C02.lean`, C02): one fetch scenario per case.
 
@@ -7,7 +8,11 @@ abstract world extracted by the harness:
 
 `nid=<name> nsig=<name> rad=<names> ldoc=<delegates>/<threshold>|- adoc=… local=<key> clone=<0|1>
  scope=all|f:<keys> blocked=<keys> refsat=none|<key>:<oid>,… L=<key>:<name>:<oid>,… A=…
- B=<key>@<oid>:x | <key>@<oid>:<sigOk>:<a|s|o>:<name>><oid>+…;…  ANC=<old>><new>:<E|A|B|D>,…`
+ B=<key>@<oid>:x | <key>@<oid>:<sigOk>:<a|s|o>:<name>><oid>+…;…  ANC=<old>><new>:<E|A|B|D>,… worker=<0|1>`
+
+With `worker=1` the scenario is also run one level up (two real nodes, `worker::fetch::Handle::fetch`) and
+` ; worker=<success|failed> dir=<0|1>` is appended: node-level outcome and whether a repository directory
+exists in the fetching node's storage afterwards (`Model/FetchWorker.lean`).
 
 Output: `success r=<validated remotes> L=<refdb>` | `failed L=…` | `error L=…` (`panic L=…` is what the harness prints
 when the real code panics; the model never produces it: `fetch_no_panic`), the refdb
@@ -96,7 +101,7 @@ def showOutcome (o : Outcome) : String :=
   | .panic => "panic"
 
 def runWorld : List String → String
-  | [nid, nsig, rad, ldoc, adoc, loc, clone, scope, blocked, refsat, l, a, b, anc] =>
+  | [nid, nsig, rad, ldoc, adoc, loc, clone, scope, blocked, refsat, l, a, b, anc, worker] =>
     let r : Option String := do
       let nId ← nat? (← kv? "nid" nid)
       let nSig ← nat? (← kv? "nsig" nsig)
@@ -119,6 +124,7 @@ def runWorld : List String → String
       let A ← refdb? (← kv? "A" a) true
       let blobs ← list? (← kv? "B" b) ';' blobEntry?
       let ancs ← list? (← kv? "ANC" anc) ',' anc?
+      let worker ← bool? (← kv? "worker" worker)
       if nId == nSig || !rad.contains nId || !rad.contains nSig then none else
       let env : Env :=
         { nId, nSig, isRad := fun n => rad.contains n,
@@ -126,7 +132,13 @@ def runWorld : List String → String
           anc := fun x y => assoc ancs (x, y) }
       let cfg : Config := { localDoc, advDoc, localKey, isClone, scope, blocked, refsAt }
       let (out, db) := fetch env cfg L A
-      some (showOutcome out ++ " L=" ++ showRefdb db)
+      let base := showOutcome out ++ " L=" ++ showRefdb db
+      if worker then
+        -- the node's own key: no namespace, no delegate
+        let (outW, _) := fetch env (HeartwoodModel.FetchWorker.nodeConfig cfg 1000000) L A
+        let w := HeartwoodModel.FetchWorker.workerFetch (!isClone) outW
+        some (base ++ " ; worker=" ++ (if w.success then "success" else "failed") ++ " dir=" ++ showBool w.dirPresent)
+      else some base
     r.getD "bad-op"
   | _ => "bad-op"
 
